@@ -143,10 +143,53 @@ def empty_shapes(rng):
     return c
 
 
+def sink_pair(rng):
+    """a partial DFA with mostly final states, one live non-final state and an explicit dead part (a sink that lacks
+    some of its self loops, possibly a second dead state behind it), and the same language written without the sink"""
+    k = 2
+    live = rng.randint(3, 5)
+    nonfinal = rng.sample(range(live), rng.choice([1, 1, 2]))
+    finals = [s for s in range(live) if s not in nonfinal]
+    sink = live
+    dead2 = live + 1 if rng.random() < 0.35 else None
+    trans, trans_nosink = [], []
+    for p in range(live):
+        for a in range(k):
+            r = rng.random()
+            if r < 0.6 or (p in nonfinal and a == 0):
+                q = rng.choice(finals) if p in nonfinal and a == 0 else rng.randrange(live)
+                trans.append([p, a, q])
+                trans_nosink.append([p, a, q])
+            elif r < 0.88:
+                trans.append([p, a, sink])
+    loops = rng.sample(range(k), rng.choice([0, 1, 1]))
+    for a in loops:
+        trans.append([sink, a, sink])
+    if dead2 is not None:
+        free = [a for a in range(k) if a not in loops]
+        if free:
+            trans.append([sink, free[0], dead2])
+        if rng.random() < 0.5:
+            trans.append([dead2, rng.randrange(k), rng.choice([sink, dead2])])
+    vc = rng.choice(PAIR_VCS)
+    n = live + (2 if dead2 is not None else 1)
+    a = {"kind": "dfa", "n": n, "k": k, "start": [0], "final": finals, "trans": trans, "extra": [], "vc": vc,
+         "token": False, "shape": "explicit_sink"}
+    b = {"kind": "dfa", "n": live, "k": k, "start": [0], "final": finals, "trans": trans_nosink, "extra": [], "vc": vc,
+         "token": False, "shape": "without_sink"}
+    if rng.random() < 0.5:
+        a["shuffle"] = rng.randrange(1 << 30)
+    return (a, b) if rng.random() < 0.5 else (b, a)
+
+
 def plan(tier, rng, sl, nslices, stats):
     cfg = TIERS[tier]
     for i in range(cfg["random"]):
         r = rng.random()
+        if i % 8 == 5:
+            a, b = sink_pair(rng)
+            yield {"pair": [a, b]}
+            continue
         if r < 0.12:
             vc = rng.choice(["tuple", "inject"])
             a = gfa.random_case(rng, max_states=4, max_syms=2, vcs=[vc])
@@ -231,6 +274,18 @@ def run_case(c, stats):
             if xa.is_deterministic() and xb.is_deterministic() and not rn.isomorphic(xa, xb):
                 core.report(PROP, "minimize", "not-isomorphic",
                             {"sizes": [len(xa.states), len(xb.states)]}, tags_pair(ra, rb))
+    if ca.get("edits"):
+        # one operand is edited through the public mutators (start state included) after it has been compared, and
+        # compared again: the verdict follows the automaton as it is now
+        gfa.apply_edits(A, ca)
+        stats.cls("edited_then_compared")
+        call(A.is_equivalent_to, B)
+        call(B.is_equivalent_to, A)
+        call(lambda: A == B)
+        okc, cp = call(A.copy)
+        if okc:
+            call(A.is_equivalent_to, cp)
+            call(cp.is_equivalent_to, A)
     if oka:
         # idempotence: minimising a minimal automaton keeps the size
         ok2, m2 = call(ma.minimize)
